@@ -140,6 +140,10 @@ type Pool struct {
 
 var poolGen int64 = 1
 
+// PoolFIFO: Get hands back the OLDEST pooled object instead of the newest. sync.Pool promises no order; the
+// harness owns the choice (a pooled record that was not reset is only seen by the writer that draws it).
+var PoolFIFO bool
+
 // NewGeneration empties every Pool lazily (called by the harness between executions).
 //
 //go:norace
@@ -165,7 +169,12 @@ func (p *Pool) Get() any {
 	}
 	p.check()
 	l := &p.lists[sched.Cur()]
-	if n := len(*l); n > 0 {
+	if n := len(*l); n > 0 && PoolFIFO {
+		x := (*l)[0]
+		(*l)[0] = nil
+		*l = (*l)[1:]
+		return x
+	} else if n > 0 {
 		x := (*l)[n-1]
 		(*l)[n-1] = nil
 		*l = (*l)[:n-1]
